@@ -7,7 +7,9 @@ CHECKS = {
     "C17": {
         "text": ("Lean theorems (unbounded, member abstraction): one member per view entry in walk order (members_in_walk_order); a payload follows iff the "
                  "member is a regular file of positive size without link name, links have size 0 and no payload (payload_iff, links_have_no_payload); directories "
-                 "carry a trailing slash (dir_trailing_slash); uid/gid/xattrs/device numbers/link name are carried over (identity_preserved). Correspondence: "
+                 "carry a trailing slash (dir_trailing_slash); uid/gid/xattrs/device numbers/link name are carried over (identity_preserved); for every canonical "
+                 "listing, whichever hard-link group members a filter removed, every link member of the archive the repaired WriteTar writes names an earlier "
+                 "member written as the file itself (tar_links_closed, from the closure theorem of C11). Correspondence: "
                  "WriteTar over in-memory and on-disk views (all types, long and non-UTF-8 names, xattrs, filters), archive read back with archive/tar and compared "
                  "member by member with the model; payload length = header size; 60% of the archives are extracted by an independent extractor (GNU tar as "
                  "root, -p --same-owner --xattrs) and the extracted tree is judged by the Lean tree specification of C01 against the view (mtimes to the second)."),
@@ -69,12 +71,17 @@ CHECKS = {
     "C10": {
         "text": ("Lean theorems (unbounded): core pruning lemma for the parent-result matcher over arbitrary pattern lists (prune_core: under the semantic "
                  "prune condition a negative verdict at a directory stays negative for every descendant); soundness of the syntactic test with a single trim "
-                 "for the shapes t, t/*, t/**, t/*/** (prune_syntactic_sound); kernel-checked witness that the double trim was unsound (f9_witness). "
+                 "for the shapes t, t/*, t/**, t/*/** (prune_syntactic_sound); kernel-checked witness that the double trim was unsound (f9_witness); the "
+                 "EXECUTABLE MatchesUsingParentResults of the model is the abstract matcher of prune_core whenever parent results are present (matchesUPR_eq), "
+                 "hence for every pattern list (negations included): if it says 'no match' at a directory and no positive pattern matches a path below without "
+                 "matching the directory, the verdict stays 'no match' along every chain of descendants evaluated with threaded parent results - SkipDir there "
+                 "is unobservable (exec_prune_sound). "
                  "Correspondence: moby/patternmatcher vs the Lean matcher (regexp translation with exact/prefix/suffix shortcuts, rune semantics) on 30k "
                  "(pattern list, path) pairs; NewFilterFS.Walk vs the transcribed callback + WalkDir driver on trees x pattern lists x map tables; oracle: "
                  "the naive reference (stateless matcher on every entry + ancestors) and the no-pruning run."),
-        "note": ("Trusted: Lean kernel + standard axioms; patternmatcher modelled for a declared fragment; the lift from prune_core/prune_syntactic_sound to "
-                 "'filterWalk with pruning = filterWalk without' over the transcribed callback is by execution (both variants are run on every case), not yet a theorem. "
+        "note": ("Trusted: Lean kernel + standard axioms; patternmatcher modelled for a declared fragment; that the syntactic prune test of filter.go implies the semantic condition for regexp-type "
+                 "patterns, and the lift to 'filterWalk with pruning = filterWalk without' over the transcribed callback and WalkDir driver, are by execution "
+                 "(both variants are run on every case), not theorems. "
                  "Known finding F5 (parent-result vs stateless matcher under negations)."),
     },
     "C11": {
